@@ -248,6 +248,9 @@ func runC12(r *fw.Run) {
 		if !validUTF8(c.Name) {
 			continue
 		}
+		if r.ViolationCount() > 12 {
+			break
+		}
 		r.Journal(0, c)
 		c12One(r, p, c)
 		r.Done(0)
